@@ -14,15 +14,46 @@ import (
 
 // specEnv is the environment in which a contract expression is evaluated.
 type specEnv struct {
-	x      *Exec
-	fn     *ssa.Function // scope owner (for package lookup and locals)
-	fr     *frame        // non-nil: identifiers may resolve to live locals of this frame
-	st     *State
-	old    *State
-	names  map[string]Value // parameters, results, quantified variables
-	inOld  bool
-	params map[string]Value // entry values of the parameters (used inside old() in loop invariants)
-	localSt *State          // inside old(): the current state, where locals keep their current values
+	x       *Exec
+	fn      *ssa.Function // scope owner (for package lookup and locals)
+	fr      *frame        // non-nil: identifiers may resolve to live locals of this frame
+	st      *State
+	old     *State
+	names   map[string]Value // parameters, results, quantified variables
+	inOld   bool
+	params  map[string]Value // entry values of the parameters (used inside old() in loop invariants)
+	localSt *State           // inside old(): the current state, where locals keep their current values
+	pol     int              // +1: this position is assumed true; -1: assumed false (a goal); 0: unknown
+}
+
+func (env *specEnv) withPol(p int) *specEnv {
+	if env.pol == p {
+		return env
+	}
+	n := *env
+	n.pol = p
+	return &n
+}
+
+// evalAssume / evalGoal evaluate a clause that is about to be assumed / proved.
+func (env *specEnv) evalAssume(e ast.Expr) Term { return env.withPol(1).evalBool(e) }
+func (env *specEnv) evalGoal(e ast.Expr) Term   { return env.withPol(-1).evalBool(e) }
+
+// polarityNode: connectives through which the polarity of a position is tracked.
+func polarityNode(e ast.Expr) bool {
+	switch e := e.(type) {
+	case *ast.ParenExpr:
+		return true
+	case *ast.UnaryExpr:
+		return e.Op == token.NOT
+	case *ast.BinaryExpr:
+		return e.Op == token.LAND || e.Op == token.LOR
+	case *ast.CallExpr:
+		if id, ok := e.Fun.(*ast.Ident); ok {
+			return id.Name == "implies__" || id.Name == "forall__" || id.Name == "exists__"
+		}
+	}
+	return false
 }
 
 func (env *specEnv) with(name string, v Value) *specEnv {
@@ -53,6 +84,9 @@ func exprString(e ast.Expr) string { return types.ExprString(e) }
 
 func (env *specEnv) eval(e ast.Expr) Value {
 	x := env.x
+	if env.pol != 0 && !polarityNode(e) {
+		env = env.withPol(0)
+	}
 	switch e := e.(type) {
 	case *ast.ParenExpr:
 		return env.eval(e.X)
@@ -84,7 +118,7 @@ func (env *specEnv) eval(e ast.Expr) Value {
 		p := env.eval(e.X)
 		return x.load(nil2(env), env.st, p, deref(p.T), token.NoPos)
 	case *ast.UnaryExpr:
-		v := env.eval(e.X)
+		v := env.withPol(-env.pol).eval(e.X)
 		switch e.Op {
 		case token.NOT:
 			return Value{T: v.T, L: []Term{Not(v.L[0])}}
@@ -516,7 +550,7 @@ func (env *specEnv) call(e *ast.CallExpr) Value {
 		if _, shadow := env.names[id.Name]; !shadow {
 			switch id.Name {
 			case "implies__":
-				a, b := env.evalBool(e.Args[0]), env.evalBool(e.Args[1])
+				a, b := env.withPol(-env.pol).evalBool(e.Args[0]), env.evalBool(e.Args[1])
 				return Value{T: types.Typ[types.Bool], L: []Term{Implies(a, b)}}
 			case "forall__", "exists__":
 				return env.quantifier(id.Name == "forall__", e.Args[0].(*ast.FuncLit))
@@ -611,20 +645,42 @@ func (env *specEnv) call(e *ast.CallExpr) Value {
 				name := "ufb_" + sanitize(strings.Trim(exprString(e.Args[0]), `"`))
 				x.C.DeclareFun(name, []Sort{SBV64}, SBV8)
 				return Value{T: types.Typ[types.Uint8], L: []Term{app(SBV8, name, env.toBV64(env.eval(e.Args[1])))}}
-			case "ufstr":
-				name := "ufs_" + sanitize(strings.Trim(exprString(e.Args[0]), `"`))
-				t := x.C.Declare(name, SStr)
-				return Value{T: types.Typ[types.String], L: []Term{t}}
-			case "ufint":
-				name := "ufi_" + sanitize(strings.Trim(exprString(e.Args[0]), `"`))
-				t := x.C.Declare(name, SBV64)
-				return Value{T: types.Typ[types.Int], L: []Term{t}}
+			case "ufstr", "ufint", "ufbool":
+				// ufstr("name"[, args...]): an unconstrained, immutable value (an uninterpreted
+				// function of the leaves of the arguments when there are any)
+				id := e.Fun.(*ast.Ident).Name
+				srt, typ, pre := SStr, types.Type(types.Typ[types.String]), "ufs_"
+				switch id {
+				case "ufint":
+					srt, typ, pre = SBV64, types.Typ[types.Int], "ufi_"
+				case "ufbool":
+					srt, typ, pre = SBool, types.Typ[types.Bool], "ufp_"
+				}
+				name := pre + sanitize(strings.Trim(exprString(e.Args[0]), `"`))
+				if len(e.Args) == 1 {
+					return Value{T: typ, L: []Term{x.C.Declare(name, srt)}}
+				}
+				var as []Term
+				var sorts []Sort
+				for _, a := range e.Args[1:] {
+					for _, l := range env.eval(a).L {
+						as = append(as, l)
+						sorts = append(sorts, l.Sort)
+					}
+				}
+				x.C.DeclareFun(name, sorts, srt)
+				return Value{T: typ, L: []Term{app(srt, name, as...)}}
 			case "sameobj":
 				a, b := env.eval(e.Args[0]), env.eval(e.Args[1])
 				return Value{T: types.Typ[types.Bool], L: []Term{Eq(a.L[0], b.L[0])}}
 			case "sameptr":
 				a, b := env.eval(e.Args[0]), env.eval(e.Args[1])
 				return Value{T: types.Typ[types.Bool], L: []Term{And(Eq(a.L[0], b.L[0]), Eq(a.L[1], b.L[1]))}}
+			case "freshiter":
+				// freshiter(p): p was allocated after the last loop head crossed, i.e. in the current
+				// iteration of the enclosing loop (an ownership condition: not shared with earlier iterations)
+				v := env.eval(e.Args[0])
+				return Value{T: types.Typ[types.Bool], L: []Term{App(SBool, ">=", v.L[0], env.st.IterFrontier)}}
 			case "fresh":
 				// fresh(p): p was allocated during the call (not allocated in the pre-state)
 				v := env.eval(e.Args[0])
@@ -769,6 +825,10 @@ func (env *specEnv) quantifier(forall bool, fl *ast.FuncLit) Value {
 		inner = inner.with(nm.Name, v)
 	}
 	ret := fl.Body.List[0].(*ast.ReturnStmt).Results[0]
+	pol := env.pol
+	if x.C.noDefine > 0 {
+		pol = 0
+	}
 	if out, ok := env.expandQuantifier(forall, p, t, ret); ok {
 		return out
 	}
@@ -778,9 +838,52 @@ func (env *specEnv) quantifier(forall bool, fl *ast.FuncLit) Value {
 		return inner.evalBool(ret)
 	}()
 	if forall {
-		return Value{T: types.Typ[types.Bool], L: []Term{Forall(vars, body)}}
+		fa := Forall(vars, body)
+		if len(vars) == 1 && len(p.Names) == 1 && pol > 0 && len(x.witnesses[vars[0].Sort]) > 0 {
+			// an assumed universal: add its instances at the remembered witnesses
+			prev := x.witnesses[vars[0].Sort]
+			if len(prev) > 4 {
+				prev = prev[len(prev)-4:]
+			}
+			cs := []Term{fa}
+			for _, c := range prev {
+				cs = append(cs, env.withPol(0).with(p.Names[0].Name, Value{T: t, L: []Term{c}}).evalBool(ret))
+			}
+			return Value{T: types.Typ[types.Bool], L: []Term{And(cs...)}}
+		}
+		return Value{T: types.Typ[types.Bool], L: []Term{fa}}
 	}
-	return Value{T: types.Typ[types.Bool], L: []Term{Exists(vars, body)}}
+	ex := Exists(vars, body)
+	if len(vars) == 1 && len(p.Names) == 1 && pol != 0 {
+		// Manual instantiation. An existential that is assumed is replaced by its body at a fresh
+		// constant (skolemisation, equisatisfiable); the constant is remembered as a witness. An
+		// existential to be proved is equivalent to Q(w1) || ... || exists i :: Q(i) for the remembered
+		// witnesses of the same sort (each instance implies it); the ground instances spare the solver
+		// the instantiation when one existential follows from another (callee post => caller post).
+		srt := vars[0].Sort
+		inst := func(c Term) Term {
+			return env.with(p.Names[0].Name, Value{T: t, L: []Term{c}}).evalBool(ret)
+		}
+		if pol > 0 {
+			w := x.C.Fresh("wit_"+p.Names[0].Name, srt)
+			if x.witnesses == nil {
+				x.witnesses = map[Sort][]Term{}
+			}
+			x.witnesses[srt] = append(x.witnesses[srt], w)
+			return Value{T: types.Typ[types.Bool], L: []Term{inst(w)}}
+		}
+		prev := x.witnesses[srt]
+		if len(prev) > 4 {
+			prev = prev[len(prev)-4:]
+		}
+		ds := []Term{}
+		for _, c := range prev {
+			ds = append(ds, inst(c))
+		}
+		ds = append(ds, ex)
+		return Value{T: types.Typ[types.Bool], L: []Term{Or(ds...)}}
+	}
+	return Value{T: types.Typ[types.Bool], L: []Term{ex}}
 }
 
 func (c *Clause) String() string { return fmt.Sprintf("%s %s", c.Kind, c.Text) }
